@@ -105,16 +105,32 @@ Definition wf_dir (d : dir) : Prop := forall id f, In (id, f) d -> Forall wf_ent
    otherwise — torn tails read as end of input, provided the torn record is representable *)
 Definition wf_hints (d : dir) : Prop := forall id f hs, In (id, f) d -> d_hint f = Some hs -> Forall wf_hint hs.
 
-Theorem reads_scan img d : reads_as img d -> wf_dir d -> wf_hints d ->
+Definition dir_hints_ok (d : dir) : Prop := forall id f, In (id, f) d -> hints_ok f.
+
+Lemma hints_of_fit : forall es pos h, In h (hints_of es pos) -> h_pos h + h_len h <= pos + data_size es.
+Proof.
+  induction es as [|e es IH]; intros pos h Hin; cbn [hints_of data_size In] in *; [destruct Hin|].
+  destruct Hin as [<-|Hin]; [cbn; lia|]. specialize (IH _ _ Hin). lia.
+Qed.
+
+Theorem reads_scan img d : reads_as img d -> wf_dir d -> wf_hints d -> dir_hints_ok d ->
   forall id f, dir_get d id = Some f ->
     match d_hint f with
     | None => exists b, img (FData id) = Some b /\ scan dec_entry b = Some (layout 0 (d_data f))
-    | Some hs => exists b, img (FHint id) = Some b /\ scan dec_hint b = Some (hint_layout 0 hs)
+    | Some hs => (exists b, img (FHint id) = Some b /\ scan dec_hint b = Some (hint_layout 0 hs)) /\
+                 (* and every hint lies within the data file, whose bytes are not read *)
+                 (exists bd, img (FData id) = Some bd /\ Forall (fun h => h_pos h + h_len h <= blen bd) hs)
     end.
 Proof.
-  intros Hr Hw Hwh id f Hg. specialize (Hr id). rewrite Hg in Hr. pose proof (dir_get_In _ _ _ Hg) as Hin.
+  intros Hr Hw Hwh Hok id f Hg. specialize (Hr id). rewrite Hg in Hr. pose proof (dir_get_In _ _ _ Hg) as Hin.
   destruct (d_hint f) as [hs|] eqn:Eh.
-  - destruct Hr as [_ (tail & Hb & Ht)]. eexists. split; [exact Hb|]. pose proof (Hwh id f hs Hin Eh) as Hhs.
+  - destruct Hr as [(bx & Hbd) (tail & Hb & Ht)]. split.
+    2:{ eexists. split; [exact Hbd|]. pose proof (Hok id f Hin) as Hho. unfold hints_ok in Hho. rewrite Eh in Hho. destruct Hho as [-> _].
+        rewrite Forall_forall. intros h Hh. apply hints_of_fit in Hh. rewrite blen_app.
+        assert (blen (file_bytes (d_data f)) = data_size (d_data f)).
+        { clear. induction (d_data f) as [|e es IH]; cbn [file_bytes data_size]; [reflexivity|]. rewrite blen_app, enc_entry_size, IH. reflexivity. }
+        lia. }
+    eexists. split; [exact Hb|]. pose proof (Hwh id f hs Hin Eh) as Hhs.
     destruct Ht as [->|(h & q & Hwfh & Hq & E)]; [rewrite app_nil_r; apply scan_hint_file; exact Hhs|].
     eapply scan_torn_hint_file; eauto.
   - destruct Hr as [(tail & Hb & Ht) _]. eexists. split; [exact Hb|]. pose proof (Hw id f Hin) as Hf.
@@ -204,13 +220,15 @@ Proof. intros H. unfold sync_calls. destruct (c_sync c); cbn [fs_run fs_step]; [
 Lemma prefix_cons {A} (x : A) l t1 t2 : x :: l = t1 ++ t2 -> (t1 = [] /\ t2 = x :: l) \/ (exists t1', t1 = x :: t1' /\ l = t1' ++ t2).
 Proof. destruct t1 as [|y t1']; cbn [app]; intros H; [left; auto|right]. inversion H; subst. eauto. Qed.
 
+(* [d] is a directory whose hint files describe their data files, and opening it yields the map [m] *)
 Definition recovers_to (d : dir) (m : bytes -> option bytes) : Prop :=
+  dir_hints_ok d /\
   forall clk, exists s' t, open d clk = ROk (s', tt, t) /\ Inv s' /\ forall k, abs s' k = m k.
 
 Lemma recovers_log d : sorted d -> d <> [] -> (forall id f, In (id, f) d -> hints_ok f) ->
   recovers_to d (fun k => lastval (log_of_dir d) k None).
 Proof.
-  intros Hs Hn Hh clk. destruct (open_ok d clk Hs Hn Hh) as (s' & t & Ho & HI & Hl & _). exists s', t. split; [exact Ho|]. split; [exact HI|].
+  intros Hs Hn Hh. split; [exact Hh|]. intros clk. destruct (open_ok d clk Hs Hn Hh) as (s' & t & Ho & HI & Hl & _). exists s', t. split; [exact Ho|]. split; [exact HI|].
   intros k. unfold abs. rewrite Hl. reflexivity.
 Qed.
 
